@@ -26,6 +26,8 @@ MS = 10 ** 6
 WINDOW, NFWINDOW, MINB, MAXB = 3000 * MS, 500 * MS, 50 * MS, 300 * MS
 RETRYABLE = ["notfound", "addrnotfound", "sendfail", "reqtimeout", "ctxdeadline", "connrefused", "nettimeout", "inprogress"]
 SLEEP_CASES = [(50, -10, 0), (50, 0, 0), (50, 1, 0), (50, 20, 0), (50, 50, 0), (50, 200, 0), (300, 120, 0), (1, 500, 0), (200, 1000, 60), (100, 40, 500), (0, 100, 0)]
+HI_TOL = 45 * MS       # scheduling tolerance on a single sleep (observed jitter on a loaded machine: 1-20 ms); persistent over 3 runs to count
+TOTAL_TOL = 70 * MS    # the same for the whole call
 LO_TOL = 3 * MS        # a timer never fires early; skew between the harness' reading and the loop's own
 AMBIG = 30 * MS        # |remaining| below this at the deciding step: either decision is consistent
 DL_TOL = 40 * MS       # start is read a little after the first ActorOf returned
@@ -294,7 +296,7 @@ def run(ctx):
         model, ncs, bys = pred
         if ncs != [(0, -1), (0, -1), (1, -1), (1, -1)] or bys != [(1, 0, (0, -1)), (1, 0, (2, -1)), (1, 0, (1, -1)), (1, 0, (1, -1)), (1, 0, (0, -1))]:
             ctx.tie_broken("C35 model constants (deliverNotClustered / deliverBypassingHandoff table)", {"got": [ncs, bys]})
-        bad = evaluate(ctx, scs, outs, hi_tol=300 * MS, total_tol=350 * MS, pred=pred)
+        bad = evaluate(ctx, scs, outs, hi_tol=HI_TOL, total_tol=TOTAL_TOL, pred=pred)
         persistent = dict(bad)
         rounds = 0
         while persistent and rounds < 2:
@@ -304,7 +306,7 @@ def run(ctx):
             pred2, cout2 = predict(ctx, sub, outs2)
             if pred2 is None or rc2 != 0:
                 break
-            again = evaluate(ctx, sub, outs2, hi_tol=200 * MS, total_tol=250 * MS, pred=pred2)
+            again = evaluate(ctx, sub, outs2, hi_tol=HI_TOL, total_tol=TOTAL_TOL, pred=pred2)
             persistent = {n: again[n] for n in persistent if n in again}
             ctx.notes.append("re-run %d (sequential) of %d scenarios with discrepancies: %d persist" % (rounds, len(sub), len(persistent)))
         for n, (kind, sig, what, detail) in sorted(persistent.items()):
@@ -339,12 +341,12 @@ def run(ctx):
             if req < 0:
                 ok = (not o["ok"]) and o["took_ns"] < 100 * MS
             elif cancel is not None and cancel < req - 5 * MS:
-                ok = (not o["ok"]) and cancel - LO_TOL <= o["took_ns"] <= cancel + 300 * MS
+                ok = (not o["ok"]) and cancel - LO_TOL <= o["took_ns"] <= cancel + 150 * MS
             else:
-                ok = o["ok"] and req - LO_TOL <= o["took_ns"] <= req + 300 * MS
+                ok = o["ok"] and req - LO_TOL <= o["took_ns"] <= req + 150 * MS
             if not ok and reported < 6:
                 reported += 1
-                if req >= 0 and o["took_ns"] > s["deadline_ms"] * MS + 300 * MS:
+                if req >= 0 and o["took_ns"] > s["deadline_ms"] * MS + 150 * MS:
                     ctx.violation("sleepWithinHandoff:past-deadline", "sleepWithinHandoff(%d ms, deadline in %d ms) slept %.1f ms" % (s["duration_ms"], s["deadline_ms"], o["took_ns"] / MS), {"input": s, "observed": o})
                 else:
                     ctx.tie_broken("sleepWithinHandoff model vs Go", {"input": s, "observed": o, "model_request_ns": req})
@@ -377,6 +379,7 @@ def run(ctx):
 
 
 META = {
+    "ready": True,
     "category": "proof",
     "technique": "Rocq proof over an executable logical-clock model of the masking loop + replay of the model (vm_compute) on timestamps recorded from the real functions driven by a scripted system double",
     "text": "For every oracle of resolution outcomes, delays and cancellations: the sleeps of one masked name-based send add up to at most the caller's timeout (and to at most handoff window + not-found window without one), the single delivery gets a context bounded by the caller deadline, the loop terminates within 72 attempts, giving up returns the retryable error that stalled it, and the asynchronous send resolves once and never sleeps. The real deliverAcrossHandoff/sleepWithinHandoff/deliverBypassingHandoff run against a scripted ActorSystem; their recorded readings are replayed through the Coq model.",
